@@ -9,43 +9,59 @@ TECH = 'symbolic execution of the real code over object arrays + z3 QF_NRA (unsa
 BUILT = ['C01', 'C02', 'C03', 'C04', 'C05', 'C06', 'C07', 'C08', 'C09', 'C10', 'C13', 'C14', 'C11', 'C12', 'C15', 'C16', 'C17']
 FLOATS = 'floats read as reals (rounding/NaN/overflow outside the claim); definedness assumed (non-zero divisors, arguments in the open domain); '
 TEXTS = {
- 'C01': ('for each overloaded function and each (D,P,shape) in the bound the real recurrences run on fully symbolic (real and complex) coefficients and every output '
-         'coefficient is proved (z3 unsat) equal to the Taylor-theorem composition oracle for ALL coefficient values with x0 in the domain; kinked functions on every sign/order path',
-         FLOATS + 'D<=5 quick / <=8 thorough, P<=3, shapes up to (2,2); special functions are uninterpreted atoms with textbook derivative rules', '4 C01'),
- 'C02': ('every operator x operand kind x position x broadcast shape pair in the bound is executed on symbolic operands; sums/differences/Cauchy products and the quotient\'s defining equation z*y=x are proved '
-         'for all real/complex values; reflected and in-place forms proved equal to the binary expression; logical result dtype and imaginary parts checked',
-         FLOATS + 'D<=3 quick / <=5 thorough, P<=2, shapes from a fixed list incl. constant arrays with more dims than the polynomial; complex scalar exponents not covered', '4 C02'),
- 'C03': ('each program of the catalogue (one per differentiable operation, buffers/views, reductions, dot/outer ranks, inv/solve/det/logdet) and seeded random compositions is recorded by the real tracer on a symbolic Taylor curve; '
-         'the reverse sweep runs with a symbolic adjoint seed and the adjoint identity <xbar,v> = <ybar,F\'(x)v> mod t^D is proved at every order for a symbolic direction v, with F\'(x)v from symbolic differentiation of the forward DAG; exceptions in existing pullbacks are violations',
-         FLOATS + 'programs enumerated (catalogue + 12 quick / 160 thorough random), D<=2 quick / <=3(4) thorough, P<=2; LAPACK factorisations via the LU pivoting model (det/logdet); known findings listed in known_findings.txt', '4 C03'),
- 'C04': ('each driver (gradient, jacobian, jac_vec, vec_jac, hessian, hess_vec, vec_hess, vec_hess_vec, jacobian(Taylor argument)) on graphs recorded at an independent symbolic point/kind is proved equal to symbolic first/second derivatives of the direct evaluation of the program at the symbolic evaluation point; integer-typed points included',
-         FLOATS + 'programs R^3->R^M from the catalogue + random; recording kinds ndarray / UTPM(1,1) / UTPM(2,2)', '4 C04'),
- 'C05': ('values seen through tracer nodes while recording and every replay (new independent symbolic inputs of any kind/degree, sequences of up to 3 replays) are proved equal to the direct evaluation of the program; structural clause asserted on each recorded graph',
-         FLOATS + 'programs enumerated; structural clause is a per-run assertion, not a solver query', '4 C05'),
- 'C06': ('for each program and history (all sequences of length <=2 over forward/reverse/driver/second-graph calls + sampled longer ones) every call on the long-lived graph is proved equal to the same call on a fresh graph; forward values of all nodes are proved unchanged by a reverse sweep; earlier results must still be intact at the end',
+ 'C01': ('for each overloaded function and each (D,P,shape) in the bound the real recurrences run on fully symbolic (real and, where NumPy supports it, complex) coefficients and every output '
+         'coefficient is proved (z3 unsat) equal to the Taylor-theorem composition oracle for ALL coefficient values with x0 in the domain; kinked functions on every sign/order path; definedness queries '
+         '(no division by a quantity that can vanish inside the domain; masked 0/0 decided by a jump test)',
+         FLOATS + 'D<=5 quick / <=14 thorough (arcsin/arccos 12) plus D=23 units, P<=4, shapes (), (2,), (2,2), (2,3), (1,2,1), transposed views; integer powers -6..13, numpy-integer and integer-valued float exponents; '
+         'special functions are uninterpreted atoms with textbook derivative rules; one known finding (integer-typed coefficient arrays) listed in known_findings.txt', '4 C01'),
+ 'C02': ('every operator x operand kind (UTPM, ndarray, python/numpy scalars of 8 kinds, 0-d arrays) x position x broadcast shape pair in the bound is executed on symbolic operands; sums/differences/Cauchy products and the '
+         'quotient\'s defining equation z*y=x are proved for all real/complex values; reflected and in-place forms (incl. right operands overlapping the left one) proved equal to the binary expression; logical result dtype and imaginary parts checked',
+         FLOATS + 'D<=3 quick / <=6 (P<=3), 10 (P=2), 14 (P=1) thorough plus D=17 units; operands scaled by 2^+-600 validated in exact rational arithmetic; complex scalar exponents are float-decided only', '4 C02'),
+ 'C03': ('each program of the catalogue (~300: arithmetic with constants either side, elementary/special functions, basic and advanced indexing, buffers and views, paused recording, reshape/transpose/tile, reductions, dot/outer ranks, '
+         'inv/solve/det/logdet/cholesky/lu, qr/qr_full/cholesky/eigh/eig/svd on factor-built inputs, fft/ifft) and seeded random compositions is recorded by the real tracer; the reverse sweep runs with a symbolic adjoint seed and the adjoint identity '
+         '<xbar,v> = <ybar,F\'(x)v> mod t^D is proved at every order for a symbolic direction v, with F\'(x)v from symbolic differentiation of the forward DAG; two routes (record elsewhere + re-evaluate, sweep right after recording), '
+         'fan-out wrappers, a second sweep; exceptions in existing pullbacks are violations',
+         FLOATS + 'programs enumerated (catalogue + 12 quick / 160 thorough random), D<=2-3 quick / <=3(4) thorough, P<=2; LAPACK factorisations via contract stubs / the LU pivoting model; svd: all outputs only at order 0, single outputs at order 1; '
+         'known findings (pb_sum argument order) listed in known_findings.txt', '4 C03'),
+ 'C04': ('each driver (gradient, jacobian, jac_vec, vec_jac, hessian, hess_vec, vec_hess, vec_hess_vec, jacobian(Taylor argument)) on graphs recorded at an independent symbolic point/kind is proved equal to symbolic first/second derivatives '
+         'of the direct evaluation of the program at the symbolic evaluation point; integer-typed points; results kept across later calls',
+         FLOATS + 'programs R^3->R^M: fixed lists, every 1-D buffer/indexing program of the catalogue, random compositions; recording kinds ndarray / UTPM(1,1) / UTPM(2,2)', '4 C04'),
+ 'C05': ('values seen through tracer nodes while recording and every replay (new independent symbolic inputs of any kind/degree, sequences of up to 3 replays, incl. factorisation programs on factor-built points) are proved equal to the direct '
+         'evaluation of the program; results and inputs of earlier replays are re-checked after the later ones; structural clause asserted on each recorded graph',
+         FLOATS + 'programs enumerated (catalogue + 8 / 900 random); structural clause is a per-run assertion, not a solver query', '4 C05'),
+ 'C06': ('for each program and history (all sequences of length <=2 (3) over forward/reverse/driver/second-graph/re-used-argument-object calls + sampled longer ones) every call on the long-lived graph is proved equal to the same call on a fresh graph; '
+         'forward values of all nodes are proved unchanged by a reverse sweep; earlier results must still be intact at the end; every catalogue program through one forward evaluation + two sweeps',
          FLOATS + 'histories enumerated up to length 2 (3 thorough) + seeded samples up to 5', '4 C06'),
- 'C07': ('dot/outer (every operand rank and kind combination in the bound)/trace proved equal to NumPy on coefficient slices convolved; inv and solve proved through A inv(A)=I, inv(A) A=I, A X=B modulo t^D; det proved equal to the Leibniz polynomial of A(t) on every pivot path of a symbolic partial-pivoting LU; logdet orders>=1 against log(det(t)); expm against the Pade-7 defining equation',
-         FLOATS + 'sizes N<=3, D<=4 (inv 2x2 D<=6), P<=2; numpy.linalg.inv/solve replaced by exact cofactor formulas; lu_factor by a pivoting model validated against LAPACK on the float build; logdet order 0 numeric only; det(A0)>0 for logdet', '4 C07'),
- 'C08': ('zeroth coefficients are constructed from their factors (rational parametrisation of O(2)/SO(3), free triangular/diagonal entries), higher coefficients free symbols; the real recurrences run and QR=A, Q^TQ=I, R upper (reduced square/tall/wide, full), LL^T=A, PLU=A with unit-lower L / upper U / constant permutation (lu, lu2, lu_factor; all pivot paths), A=Q diag(lambda) Q^T with Q^TQ=I and ascending lambda_0 (distinct eigenvalues), AQ=Q diag(lambda) (eig, D<=2) are proved modulo t^D',
-         FLOATS + 'LAPACK on A0 is a contract stub returning the factors A0 was built from (LU: explicit pivoting model); shapes 2x2, 3x2, 2x3, 3x3; D<=3 quick / <=4-5 thorough; repeated eigenvalues and svd are NOT covered (stated in DESIGN.md)', '4 C08'),
- 'C09': ('generic polynomial programs with SYMBOLIC coefficients, point and direction (plus smooth programs) are evaluated with the real UTPM arithmetic on the init_* seeds; extract_jacobian / extract_jac_vec / extract_hessian (N<=5: triangular index arithmetic) / extract_hess_vec are proved equal to symbolic partial derivatives; extract_tensor at concrete integer points: |Gamma-interpolated value - exact partial/alpha!| <= 1e-9 proved for ALL coefficient vectors in [-1,1] (linear real arithmetic)',
-         FLOATS + 'N<=4(5), polynomial degree <=3 quick / 4 thorough, tensor order d<=4(5); Gamma is a float table (tolerance 1e-9)', '4 C09'),
- 'C10': ('zeroth coefficient, shape, len, size, ndim of every catalogued operation proved equal to NumPy applied to the zeroth-coefficient symbolic arrays per direction (different base points); comparison operators: on every explored path the returned truth value is proved equal to the all-elements NumPy comparison; branches agree between ndarray/UTPM/Function; algopy.<f> on plain symbolic arrays == numpy/scipy.<f>',
+ 'C07': ('dot/outer (every operand rank and kind combination in the bound, real and complex)/trace proved equal to NumPy on coefficient slices convolved; inv and solve proved through A inv(A)=I, inv(A) A=I, A X=B modulo t^D; det proved equal to the '
+         'Leibniz polynomial of A(t) on every pivot path of a symbolic partial-pivoting LU; logdet orders>=1 against log(det(t)); expm_pade(A, q), q in {3,5,7,9,13}, against the defining equation with closed-form Pade coefficients; '
+         'C- and Fortran-ordered operands unchanged',
+         FLOATS + 'sizes N<=3, D<=4-5 (inv 2x2 D<=6), P<=2; numpy.linalg.inv/solve replaced by exact cofactor formulas; lu_factor by a pivoting model validated against LAPACK on the float build; logdet order 0 numeric only; det(A0)>0 for logdet; expm vs the true exponential not covered', '4 C07'),
+ 'C08': ('zeroth coefficients are constructed from their factors (rational parametrisation of O(2)/SO(3), free triangular/diagonal entries), higher coefficients free symbols; the real recurrences run and QR=A, Q^TQ=I, R upper (reduced square/tall/wide, full), '
+         'LL^T=A, PLU=A (lu, lu2, lu_factor; all pivot paths), A=Q diag(lambda) Q^T with Q^TQ=I and ascending lambda_0 (distinct eigenvalues; one eigenvalue repeated at orders 0..k-1 splitting at order k<=4; triple eigenvalue 3x3; repeated pair inside 3x3), '
+         'AQ=Q diag(lambda) (eig, D<=2, real/complex/Hermitian), U diag(s) V^T=A with orthogonal U, V (svd 2x2, 2x3, 3x2, D<=2) are proved modulo t^D',
+         FLOATS + 'LAPACK on A0 (and on blocks the code computes) is a contract stub returning the factors the matrix was built from, matched by node identity or by solver-proved equality (LU: explicit pivoting model); D<=3 quick / <=4-5 thorough; not covered: partial splitting of a triple eigenvalue, svd at D>=3', '4 C08'),
+ 'C09': ('generic polynomial programs with SYMBOLIC coefficients, point and direction (plus smooth programs) are evaluated with the real UTPM arithmetic on the init_* seeds; extract_jacobian / extract_jac_vec / extract_hessian / extract_hess_vec are proved equal to symbolic partial derivatives; '
+         'extract_tensor at concrete integer points (float, int, int32, list seeds; programs scaled by 3e-14 / 1e-20): |Gamma-interpolated value - exact partial/alpha!| <= 1e-9 (relative to the scale) proved for ALL coefficient vectors in [-1,1] (linear real arithmetic)',
+         FLOATS + 'N<=4(6), polynomial degree <=3 quick / 6 thorough, tensor order d<=4(6); Gamma is a float table (tolerance 1e-9)', '4 C09'),
+ 'C10': ('zeroth coefficient, shape, len, size, ndim of every catalogued operation (~185) proved equal to NumPy applied to the zeroth-coefficient symbolic arrays per direction (different base points); comparison operators: on every explored path the returned truth value is proved equal to the all-elements NumPy comparison; '
+         'branches agree between ndarray/UTPM/Function; algopy.<f> on plain symbolic arrays == numpy/scipy.<f>',
          FLOATS + 'operation catalogue symx/ops.py; LAPACK-backed zeroth coefficients compared with exact inverse/Cramer (stub on both sides)', '4 C10'),
- 'C13': ('operand elements are distinct symbols: getitem for ~150 (quick) / ~1800 (thorough) index expressions from a grammar (ints, negative ints, slices with +-steps, Ellipsis, newaxis, tuples) on 1-3-D shapes, write-through-view, setitem with UTPM/broadcast UTPM/ndarray/scalar right-hand sides, reshape, transpose, sum(axis), tile, diag, tril/triu(k), trace, neg, conjugate/real/imag (complex), zeros/ones(-like), fft/ifft (n in {2,4}, any axis) proved slice-wise equal to NumPy; shares_memory compared with NumPy',
+ 'C13': ('operand elements are distinct symbols: getitem for 300 (quick) / 6000 (thorough) index expressions from a grammar (ints, numpy ints, negative ints, slices with +-steps, Ellipsis, newaxis, tuples) on 6 / 10 shapes, write-through-view, setitem with UTPM/broadcast UTPM/ndarray/scalar/own-view right-hand sides, reshape, transpose, sum(axis), tile, diag(k), tril/triu(k), trace, neg, conjugate/real/imag (complex), zeros/ones(-like), fft/ifft (n in {2,4}, any axis) proved slice-wise equal to NumPy; shares_memory compared with NumPy',
          'index expressions/shapes enumerated (seeded); empty selections excluded from setitem; fft via exact DFT matrix stub for n | 4', '4 C13'),
- 'C14': ('every catalogued operation leaves its arguments term-for-term unchanged; x op x, x op= x, x op= view-of-x (x[::-1], x.T, x[0], x[0:1]) proved equal to the same operation with an independent copy for all coefficient values (+,-,*,/, **, dot, outer, //); recording, re-evaluation and reverse sweeps leave user inputs and seeds unchanged',
-         FLOATS + 'catalogue symx/ops.py; D<=3 quick / 4 thorough, P=2', '4 C14'),
- 'C11': ('each catalogued operation is run on P directions with independent symbols (incl. independent base points) and on each direction alone; equality of all coefficients is decided for all values; '
-         'term support shows no symbol of another direction occurs', FLOATS + 'operation catalogue in symx/ops.py, D<=3/4, P<=2/3', '4 C11'),
- 'C12': ("each catalogued operation at degree D and at every D'<D on the truncated symbolic input: first D' coefficients proved equal; coefficient d shown to mention no input symbol of order > d",
-         FLOATS + 'operation catalogue in symx/ops.py, D<=4 quick / <=6 thorough', '4 C12'),
- 'C15': ('tables from the real generator for every (N,d) in the bound; completeness decided over symbolic integer multi-indices (LIA), reconstruction of the degree-d part of EVERY polynomial decided over symbolic coefficient vectors (LRA) with tolerance 1e-9',
-         'Gamma is a float table (exact binary values, tolerance 1e-9); (N,d) with binomial(N+d-1,d)<=21 quick / <=56 thorough', '4 C15'),
- 'C16': ('the closed forms run on a symbolic point; order 0 == base function and order k+1 == d/dx(order k) proved for all x in the declared domain with an independent DAG differentiator; piecewise functions on every path; out= aliasing',
-         FLOATS + 'n<=5 quick / <=9 thorough; (a,b,m) from small grids; tan/tanh not exported without mpmath', '4 C16'),
- 'C17': ('round trips executed on arrays of distinct symbols: output term == input symbol at the specified position; pivot helpers on every feasible pivot path of a symbolic LU (all N! paths, N<=3 quick / 4 thorough) against P L U = A and Leibniz det, plus all N! pivot vectors enumerated for N<=4/6',
-         FLOATS + 'shapes <=3-D, D<=4, P<=3', '4 C17'),
+ 'C14': ('every catalogued operation leaves its arguments term-for-term unchanged (C- and Fortran-ordered matrices) and returns results that share no memory with them; x op x, x op= x, x op= view-of-x (x[::-1], x.T, x[0], x[0:1], x.data[0,0]), two views of one parent, x.shift(s, out=x) proved equal to the same operation with an independent copy for all coefficient values (+,-,*,/, **, dot, outer, //); '
+         'recording, re-evaluation and reverse sweeps leave user inputs and seeds unchanged',
+         FLOATS + 'catalogue symx/ops.py; D<=3 quick / 6, 9 thorough, P<=5', '4 C14'),
+ 'C11': ('each catalogued operation is run on P directions with independent symbols (incl. independent base points) and on each direction alone; equality of all coefficients is decided for all values; term support shows no symbol of another direction occurs; '
+         'reverse sweeps, eigh/eigh1 with a repeated eigenvalue, qr with a rank-deficient base point and // with a 0/0 in one direction only',
+         FLOATS + 'operation catalogue in symx/ops.py, D3,P2 quick / D5,P3 + D8,P2 + D3,P5 thorough', '4 C11'),
+ 'C12': ("each catalogued operation at degree D and at every D'<D on the truncated symbolic input: first D' coefficients proved equal; coefficient d shown to mention no input symbol of order > d; reverse sweeps, shift, // with one singular entry, reused out= buffers",
+         FLOATS + 'operation catalogue in symx/ops.py, D=4 quick / 8, 11 thorough, D=17 units', '4 C12'),
+ 'C15': ('tables from the real generator for every (N,d) in the bound; completeness decided over symbolic integer multi-indices (LIA), reconstruction of the degree-d part of EVERY polynomial decided over symbolic coefficient vectors (LRA) with tolerance 1e-9 (1e-4 at d >= 12); the consumers init_tensor / extract_tensor end to end',
+         'Gamma is a float table (exact binary values); (N,d) with binomial(N+d-1,d)<=21 quick / <=56 thorough, d<10, plus (1,12..18), (2,12..17)', '4 C15'),
+ 'C16': ('the closed forms run on a symbolic point; order 0 == base function and order k+1 == d/dx(order k) proved for all x in the declared domain with an independent DAG differentiator; piecewise functions on every path; out= aliasing; orders requested in any sequence; definedness queries',
+         FLOATS + 'n<=5 quick / <=20 thorough (23 for the functions with exact integer tables; hyperu 9); (a,b,m) from small grids; tan/tanh not exported without mpmath', '4 C16'),
+ 'C17': ('round trips executed on arrays of distinct symbols: output term == input symbol at the specified position (seeds of every shape, containers incl. nested lists, mixed real/complex/plain-number entries, blocks of different degree, shift); pivot helpers on every feasible pivot path of a symbolic LU (N<=3 quick / 4 thorough) against P L U = A and Leibniz det, plus all N! pivot vectors enumerated for N<=4/6',
+         FLOATS + 'shapes <=4-D, D<=6, P<=4', '4 C17'),
 }
 CLAIMED = {k: TEXTS[k] for k in BUILT}
 NOT_YET = 'check not built yet in this session (work in progress; the property is within reach of the technique, see DESIGN.md section 4)'
